@@ -1,6 +1,6 @@
 import Nq.Lemmas.SmtpdSrc.Defs
 namespace Nq.SmtpdSrc
-/-- exhaustive kernel evaluation: every value of `state`, every byte -/
 set_option maxRecDepth 1000000 in
+/-- exhaustive kernel evaluation: every value of `state`, every byte -/
 theorem allS_true : allS = true := by decide +kernel
 end Nq.SmtpdSrc
